@@ -134,10 +134,10 @@ structure ValidateContextOptions where
   deriving DecidableEq, Repr, Inhabited
 /-- the interface `revocation.Validator`: `ValidateContext` as an oracle -/
 structure Validator where
-  validate : ValidateContextOptions → List revocationresult.CertRevocationResult × Option GoLite.Err
+  validate : ValidateContextOptions → List (Option revocationresult.CertRevocationResult) × Option GoLite.Err
   deriving Inhabited
 def Validator.ValidateContext (r : Validator) (opts : ValidateContextOptions) :
-    List revocationresult.CertRevocationResult × Option GoLite.Err := r.validate opts
+    List (Option revocationresult.CertRevocationResult) × Option GoLite.Err := r.validate opts
 end revocation
 
 /- verifier/truststore: the trust store is only handed on to the loader oracle -/
